@@ -313,6 +313,7 @@ func c13Grid(t *testing.T, tier string, shard, shards int, c *h.Collector) {
 	if shard == 0 {
 		c13EndToEnd(t, c)
 		c13Replaced(t, c)
+		c13DecisionEdges(t, c)
 		c13Large(c)
 		c13ManyPods(c)
 	}
@@ -351,62 +352,137 @@ func c13EndToEnd(t *testing.T, c *h.Collector) {
 	kinds := []string{"u", "u", "t", "c", "f"}
 	for _, pm := range perms(len(kinds)) {
 		for pi := 0; pi+1 < len(pick); pi++ {
-			g := StdGroup("g1")
-			g.Opts.MinNodes, g.Opts.MaxNodes = 0, 10
-			g.ASG.Max = 10
-			var wantCPU, wantMem int64
-			podIdx := []int{pick[pi], pick[pi+1]}
-			for _, i := range podIdx {
-				cpu, mem := shapes[i].exact()
-				wantCPU += cpu
-				wantMem += mem
-			}
-			s := &h.Scenario{Name: "c13.e2e", Groups: []h.GroupSpec{g}, Slots: 1, Quantum: Q,
-				Init: func(hh *h.Hist) {
-					a := InitASGs(hh)[0]
-					for k, j := range pm {
-						o := sim.NodeOpt{Age: time.Duration(10+k) * Q}
-						switch kinds[j] {
-						case "t":
-							o.TaintAge = dp(0)
-							o.CPUMilli, o.MemBytes = 7000, 1 << 30
-						case "c":
-							o.Cordoned = true
-							o.CPUMilli, o.MemBytes = 9000, 2 << 30
-						case "f":
-							o.ForceTaint = true
-							o.CPUMilli, o.MemBytes = 11000, 3 << 30
+			// where the two pods run: not bound; both on the group's first listed node; the first on a node
+			// that no longer exists and the second on a node of another group (a pod counts by what it
+			// selects, wherever it is bound)
+			for _, bind := range []string{"unbound", "own", "elsewhere"} {
+				bind := bind
+				g := StdGroup("g1")
+				g.Opts.MinNodes, g.Opts.MaxNodes = 0, 10
+				g.ASG.Max = 10
+				var wantCPU, wantMem int64
+				podIdx := []int{pick[pi], pick[pi+1]}
+				for _, i := range podIdx {
+					cpu, mem := shapes[i].exact()
+					wantCPU += cpu
+					wantMem += mem
+				}
+				s := &h.Scenario{Name: "c13.e2e", Groups: []h.GroupSpec{g}, Slots: 1, Quantum: Q,
+					Init: func(hh *h.Hist) {
+						a := InitASGs(hh)[0]
+						for k, j := range pm {
+							o := sim.NodeOpt{Age: time.Duration(10+k) * Q}
+							switch kinds[j] {
+							case "t":
+								o.TaintAge = dp(0)
+								o.CPUMilli, o.MemBytes = 7000, 1<<30
+							case "c":
+								o.Cordoned = true
+								o.CPUMilli, o.MemBytes = 9000, 2<<30
+							case "f":
+								o.ForceTaint = true
+								o.CPUMilli, o.MemBytes = 11000, 3<<30
+							}
+							hh.W.AddNode(a, o)
 						}
-						hh.W.AddNode(a, o)
+						other := hh.W.AddASG(sim.ASG{Name: "asg-elsewhere", Min: 0, Max: 5, LabelKey: g.Opts.LabelKey, LabelValue: "elsewhere"})
+						on := hh.W.AddNode(other, sim.NodeOpt{Age: 30 * Q})
+						for k, i := range podIdx {
+							p := shapes[i].build(fmt.Sprint("e", k))
+							p.Spec.NodeSelector = sel(g)
+							p.Status.Phase = v1.PodRunning
+							switch {
+							case bind == "own":
+								p.Spec.NodeName = hh.W.Nodes[0].Name
+							case bind == "elsewhere" && k == 0:
+								p.Spec.NodeName = "node-that-is-gone"
+							case bind == "elsewhere":
+								p.Spec.NodeName = on.Name
+							}
+							hh.W.Pods = append(hh.W.Pods, p)
+						}
+					}}
+				hh := RunCase(t, s)
+				c.R.Evaluations++
+				c.R.Scans += hh.Scans
+				d := map[string]any{"node_order": pm, "pods": []string{shapes[podIdx[0]].String(), shapes[podIdx[1]].String()}, "bound": bind}
+				capCPU, capMem := int64(2000), int64(2*(4<<30))
+				gotReqCPU := gaugeValue(metrics.NodeGroupCPURequest.WithLabelValues("g1"))
+				gotCapCPU := gaugeValue(metrics.NodeGroupCPUCapacity.WithLabelValues("g1"))
+				gotReqMem := gaugeValue(metrics.NodeGroupMemRequest.WithLabelValues("g1"))
+				gotCapMem := gaugeValue(metrics.NodeGroupMemCapacity.WithLabelValues("g1"))
+				gotCPUPct := gaugeValue(metrics.NodeGroupsCPUPercent.WithLabelValues("g1"))
+				gotMemPct := gaugeValue(metrics.NodeGroupsMemPercent.WithLabelValues("g1"))
+				if gotReqCPU != float64(wantCPU) || gotReqMem != float64(wantMem) {
+					c.Report(h.Found{Violation: h.Violation{Prop: "C13", Sig: "C13/e2e-requests", Msg: fmt.Sprintf("gauges report requests %v m / %v B, definition gives %d m / %d B", gotReqCPU, gotReqMem, wantCPU, wantMem)}, Scenario: "c13.e2e", Case: d})
+				}
+				if gotCapCPU != float64(capCPU) || gotCapMem != float64(capMem) {
+					c.Report(h.Found{Violation: h.Violation{Prop: "C13", Sig: "C13/e2e-capacity", Msg: fmt.Sprintf("gauges report capacity %v m / %v B; untainted uncordoned allocatable is %d m / %d B", gotCapCPU, gotCapMem, capCPU, capMem)}, Scenario: "c13.e2e", Case: d})
+				}
+				if !closeTo(gotCPUPct, wantCPU, capCPU) || !closeTo(gotMemPct, wantMem, capMem) {
+					c.Report(h.Found{Violation: h.Violation{Prop: "C13", Sig: "C13/e2e-percent", Msg: fmt.Sprintf("gauges report %v %% / %v %%", gotCPUPct, gotMemPct)}, Scenario: "c13.e2e", Case: d})
+				}
+				c.Nontrivial(fmt.Sprint("e2e/", pm, podIdx, bind))
+			}
+		}
+	}
+}
+
+// c13DecisionEdges: the larger of the two percentages, unrounded, drives the decision. Groups of 4
+// nodes of 10000m / 40 GiB (so that one request unit is 0.0025 / 6e-10 percentage points) with the
+// driving resource one unit below / above each threshold; the other resource idles at 1 %.
+func c13DecisionEdges(t *testing.T, c *h.Collector) {
+	const nodes, cpuNode, memNode = 4, int64(10000), int64(40) << 30
+	capOf := map[string]int64{"cpu": nodes * cpuNode, "mem": nodes * memNode}
+	for _, driver := range []string{"cpu", "mem"} {
+		for _, th := range []int64{10, 40, 70} {
+			for _, off := range []int64{-1, 1} {
+				g := StdGroup("g1")
+				g.Opts.MinNodes, g.Opts.MaxNodes = 0, 10
+				g.ASG.Max = 10
+				on := capOf[driver]*th/100 + off
+				idle := map[string]int64{"cpu": capOf["cpu"] / 100, "mem": capOf["mem"] / 100}
+				req := map[string]int64{"cpu": idle["cpu"], "mem": idle["mem"]}
+				req[driver] = on
+				s := &h.Scenario{Name: "c13.decision-edges", Groups: []h.GroupSpec{g}, Slots: 1, Quantum: Q,
+					Init: func(hh *h.Hist) {
+						a := InitASGs(hh)[0]
+						for k := 0; k < nodes; k++ {
+							hh.W.AddNode(a, sim.NodeOpt{Age: time.Duration(10+k) * Q, CPUMilli: cpuNode, MemBytes: memNode})
+						}
+						o := podOn(g, hh.W.Nodes[0].Name, req["cpu"])
+						o.MemBytes = req["mem"]
+						hh.W.AddPod(o)
+					}}
+				hh := RunCase(t, s)
+				c.R.Evaluations++
+				c.R.Scans += hh.Scans
+				taints, incr := 0, 0
+				for _, e := range hh.W.J {
+					if e.Op == sim.OpK8sUpdate && e.Err == "" && h.TaintAdded(e) {
+						taints++
 					}
-					for k, i := range podIdx {
-						p := shapes[i].build(fmt.Sprint("e", k))
-						p.Spec.NodeSelector = sel(g)
-						p.Status.Phase = v1.PodRunning
-						hh.W.Pods = append(hh.W.Pods, p)
+					if e.Op == sim.OpSetDesired {
+						incr++
 					}
-				}}
-			hh := RunCase(t, s)
-			c.R.Evaluations++
-			c.R.Scans += hh.Scans
-			d := map[string]any{"node_order": pm, "pods": []string{shapes[podIdx[0]].String(), shapes[podIdx[1]].String()}}
-			capCPU, capMem := int64(2000), int64(2*(4<<30))
-			gotReqCPU := gaugeValue(metrics.NodeGroupCPURequest.WithLabelValues("g1"))
-			gotCapCPU := gaugeValue(metrics.NodeGroupCPUCapacity.WithLabelValues("g1"))
-			gotReqMem := gaugeValue(metrics.NodeGroupMemRequest.WithLabelValues("g1"))
-			gotCapMem := gaugeValue(metrics.NodeGroupMemCapacity.WithLabelValues("g1"))
-			gotCPUPct := gaugeValue(metrics.NodeGroupsCPUPercent.WithLabelValues("g1"))
-			gotMemPct := gaugeValue(metrics.NodeGroupsMemPercent.WithLabelValues("g1"))
-			if gotReqCPU != float64(wantCPU) || gotReqMem != float64(wantMem) {
-				c.Report(h.Found{Violation: h.Violation{Prop: "C13", Sig: "C13/e2e-requests", Msg: fmt.Sprintf("gauges report requests %v m / %v B, definition gives %d m / %d B", gotReqCPU, gotReqMem, wantCPU, wantMem)}, Scenario: "c13.e2e", Case: d})
+				}
+				// exact comparison: on*100 vs th*cap
+				wantTaints, wantIncr := 0, 0
+				switch {
+				case th == 10 && off < 0:
+					wantTaints = g.Opts.FastNodeRemovalRate
+				case th == 10 || (th == 40 && off < 0):
+					wantTaints = g.Opts.SlowNodeRemovalRate
+				case th == 70 && off > 0:
+					wantIncr = 1
+				}
+				if taints != wantTaints || incr != wantIncr {
+					c.Report(h.Found{Violation: h.Violation{Prop: "C13", Sig: "C13/decision-not-driven-by-exact-larger-percentage",
+						Msg: fmt.Sprintf("%s requests %d of %d (threshold %d %% %+d unit), the other resource at 1 %%: %d taints and %d cloud increases, the utilisation as defined gives %d and %d", driver, on, capOf[driver], th, off, taints, incr, wantTaints, wantIncr)},
+						Scenario: "c13.decision-edges", Case: map[string]any{"driver": driver, "threshold": th, "offset_units": off}, Trace: append([]string(nil), hh.Trace...)})
+				}
+				c.Nontrivial(fmt.Sprint("edges/", driver, th, off))
 			}
-			if gotCapCPU != float64(capCPU) || gotCapMem != float64(capMem) {
-				c.Report(h.Found{Violation: h.Violation{Prop: "C13", Sig: "C13/e2e-capacity", Msg: fmt.Sprintf("gauges report capacity %v m / %v B; untainted uncordoned allocatable is %d m / %d B", gotCapCPU, gotCapMem, capCPU, capMem)}, Scenario: "c13.e2e", Case: d})
-			}
-			if !closeTo(gotCPUPct, wantCPU, capCPU) || !closeTo(gotMemPct, wantMem, capMem) {
-				c.Report(h.Found{Violation: h.Violation{Prop: "C13", Sig: "C13/e2e-percent", Msg: fmt.Sprintf("gauges report %v %% / %v %%", gotCPUPct, gotMemPct)}, Scenario: "c13.e2e", Case: d})
-			}
-			c.Nontrivial(fmt.Sprint("e2e/", pm, podIdx))
 		}
 	}
 }
